@@ -74,6 +74,9 @@ func TestC16(t *testing.T) {
 		g := &zoneGen{t: t, z: z}
 		var cl []string
 		var held []heldResult
+		if g.bigECH = rapid.IntRange(0, 2).Draw(t, "answers_larger_than_512_bytes") == 0; g.bigECH {
+			cl = append(cl, "answers_gt_512_bytes")
+		}
 		ttlMode := 0
 		g.ttl = func() uint32 {
 			switch ttlMode {
